@@ -35,6 +35,8 @@ type Case struct {
 	Dir      string
 	Variants []*Variant
 	Binary   string
+	// BuildErrors holds the first compiler diagnostics when the case does not build.
+	BuildErrors string
 }
 
 // NewCaseDir creates a fresh scratch directory for a case.
